@@ -16,7 +16,7 @@ CHECK_DEADLOCK FALSE
 """
 
 
-def validate(run, module, events, name=None, timeout=900, cfg=CFG, env=None, dfs=False, heap="8g", count_trace=True):
+def validate(run, module, events, name=None, timeout=900, cfg=CFG, env=None, dfs=False, heap="8g", count_trace=True, _ret=False):
     if not events:
         return []
     fd, path = tempfile.mkstemp(prefix="kvtrace_", suffix=".ndjson")
@@ -44,7 +44,71 @@ def validate(run, module, events, name=None, timeout=900, cfg=CFG, env=None, dfs
     if run is not None:
         run.add_tlc(name or module, r, kind="trace", traces=(1 if count_trace else 0))
         run.last_prints = r.prints
+    if _ret:
+        return mism, r
     return mism
+
+
+def validate_sharded(run, module, events, is_header, name=None, max_events=25000, jobs=8, timeout=3000, cfg=CFG, env=None, heap="4g"):
+    """Same verdicts as validate(), computed by several TLC processes in parallel.
+
+    The trace is cut at header events (is_header(e): an event that (re)establishes all state the following events depend on);
+    a shard longer than max_events is cut further and each piece starts with a copy of its header. Every piece is a complete
+    trace for the specification, every event is judged exactly once (repeated headers are judged again, harmlessly), and the line
+    numbers of the verdicts are mapped back to positions in `events`.
+    """
+    from concurrent.futures import ThreadPoolExecutor
+    if not events:
+        return []
+    pieces, cur, hdr = [], [], None          # piece = list of global indices (0-based)
+    for i, e in enumerate(events):
+        if is_header(e):
+            if cur:
+                pieces.append(cur)
+            cur, hdr = [i], i
+        else:
+            if len(cur) >= max_events:
+                pieces.append(cur)
+                cur = [hdr] if hdr is not None else []
+            cur.append(i)
+    if cur:
+        pieces.append(cur)
+    # pack small pieces together (fewer JVM starts), keeping order
+    packed, acc = [], []
+    for pc in pieces:
+        if acc and len(acc) + len(pc) > max_events:
+            packed.append(acc)
+            acc = []
+        acc = acc + pc
+    if acc:
+        packed.append(acc)
+
+    def one(idx):
+        sub = [events[i] for i in idx]
+        m = validate(None, module, sub, name=name, timeout=timeout, cfg=cfg, env=env, heap=heap, _ret=True)
+        return idx, m
+    import time
+    out, prints = [], []
+    agg = {"distinct": 0, "generated": 0, "depth": 0}
+    t0 = time.time()
+    with ThreadPoolExecutor(max_workers=jobs) as ex:
+        for idx, (mism, r) in ex.map(one, packed):
+            for m in mism:
+                out.append((m[0], idx[m[1] - 1] + 1) + tuple(m[2:]))
+            prints.extend(r.prints)
+            agg["distinct"] += r.distinct
+            agg["generated"] += r.generated
+            agg["depth"] = max(agg["depth"], r.depth or 0)
+    if run is not None:
+        run.states += agg["distinct"]
+        run.transitions += agg["generated"]
+        run.traces += 1
+        run.mc_runs.append({"name": name or module, "kind": "trace", "distinct_states": agg["distinct"], "states_generated": agg["generated"],
+                            "depth": agg["depth"], "wall_s": round(time.time() - t0, 2), "pieces": len(packed)})
+        run.last_prints = prints
+        run.extra.setdefault("sharded_validation", {})[name or module] = {"pieces": len(packed), "events": len(events)}
+    out.sort(key=lambda m: m[1])
+    return out
 
 
 def selftest_binding(module, events, corrupt, expect_clause=None, cfg=CFG, env=None):
